@@ -35,6 +35,8 @@ namespace
         bool sender_ready{false};
         bool run_returned{false};
         bool stop_requested{false};
+        bool stop_returned{false};
+        bool stop_slept_over{false};
         bool stopping{false};                  // on_before_stop_graph seen
         bool stopped{false};                   // on_after_stop_graph seen
         std::vector<Send> sends;
@@ -179,8 +181,10 @@ namespace
                 vs::gate([&] { return world.sender_ready || world.run_returned; });
                 world.stop_requested = true;
                 executor->view().request_stop();
+                world.stop_returned = true;
             });
         vs::S().on_expiry = [&](bool forced) {
+            if (forced && world.stop_returned && !world.stopping && !world.run_returned) world.stop_slept_over = true;
             if (!forced || world.stopping || world.stop_requested || world.run_returned) return;
             if (world.policy == 'd')
             {
@@ -259,6 +263,7 @@ namespace
             const long upper = accepted_by_return - popped_lower;
             if (upper < static_cast<long>(world.capacity)) { r.violation = "try_send(" + std::to_string(sd.value) + ") was refused although the queue cannot have been full (at most " + std::to_string(upper) + " of " + std::to_string(world.capacity) + " pending)"; return r; }
         }
+        if (world.stop_slept_over) { r.violation = "request_stop() had returned but the evaluation loop slept on until its wait slice expired (missed stop)"; return r; }
         if (world.forced_expiry_with_pending) { r.violation = "an accepted value was left pending while the evaluation loop slept until its wait slice expired (lost wake-up)"; return r; }
         // every accepted value is delivered when the run was not stopped and not cut by the end time
         bool expiry_chosen = false;
